@@ -225,6 +225,7 @@ func RunC04(env *Env, rep *Report) {
 		shapes = append(shapes, expandGotos(c)...)
 	}
 	shapes = append(shapes, c01ElifChainShapes()...)
+	shapes = append(shapes, c04DeadCodeShapes()...)
 	for _, sh := range shapes {
 		base := c01Case(sh, ShString(sh))
 		n, l := scriptLabelFuncs(base.Prog)
@@ -238,7 +239,7 @@ func RunC04(env *Env, rep *Report) {
 			bs = []string{"empty", "cmd", "labelcmd", "iflabelcmd"}
 		}
 		for _, sh := range enumSwitchShapes(m, bs) {
-			for _, ctx := range []string{"first", "while"} {
+			for _, ctx := range []string{"first", "only", "while"} {
 				base := c03Case(sh, ctx)
 				n, l := scriptLabelFuncs(base.Prog)
 				cases = append(cases, c04FromCase(base, "switch", n, l))
@@ -299,4 +300,31 @@ func RunC04(env *Env, rep *Report) {
 		return c04FromCase(base, "flow", n, func() []*Atom { return []*Atom{extra} })
 	})
 	env.RunJobs(len(cases), rep, func(w *Worker, i int) { w.RunCase(cases[i], rep) })
+}
+
+// c04DeadCodeShapes: labels inside constructs that follow break / end /
+// return / goto in the same block (unreachable by falling through).
+func c04DeadCodeShapes() [][]*Sh {
+	var res [][]*Sh
+	nested := func() []*Sh {
+		return []*Sh{
+			{K: "if", Blocks: [][]*Sh{{{K: "label"}, {K: "cmd"}}}},
+			{K: "while", Blocks: [][]*Sh{{{K: "cmd"}, {K: "label"}}}},
+			{K: "ifelse", Blocks: [][]*Sh{{{K: "cmd"}}, {{K: "label"}}}},
+		}
+	}
+	for _, stop := range []string{"break", "end", "return"} {
+		for _, n := range nested() {
+			body := []*Sh{{K: "cmd"}, {K: stop}, n, {K: "cmd"}}
+			if stop == "break" {
+				for _, lp := range []string{"while", "dowhile"} {
+					res = append(res, []*Sh{{K: lp, Blocks: [][]*Sh{cloneSh(body)}}, {K: "cmd"}})
+				}
+			} else {
+				res = append(res, cloneSh(body))
+				res = append(res, []*Sh{{K: "if", Blocks: [][]*Sh{cloneSh(body)}}, {K: "cmd"}})
+			}
+		}
+	}
+	return res
 }
